@@ -370,3 +370,86 @@ Proof.
   rewrite H1. cbn [app s_funcs s_log]. unfold w0. cbn [s_log s_funcs]. f_equal.
   unfold script_status. rewrite last_or_zero_cons0. exact H2.
 Qed.
+
+(** ---- `set -e` at any top-level position, after external commands run without the flag ---- *)
+Definition is_ext_line (rt : list (str * list str)) (l : str) : bool :=
+  match classify rt l with KExt => true | _ => false end.
+
+Section Prefix.
+Variable ext : str -> Z.
+Variable file_text : str -> option str.
+Variable n : nat.
+Variable ft : list (str * str).
+Variable rt : list (str * list str).
+Hypothesis Htab : tab_ok ft rt.
+
+Lemma prefix_ext rif rfor rwh f : forall pre, forallb ok_line pre = true -> forallb (is_ext_line rt) pre = true ->
+  forall rest w acc, s_eoe w = false -> s_funcs w = ft ->
+  exp_loop shs (exec_line ext file_text n (S f)) s_eoe rif rfor rwh false (map cmd_node pre ++ rest) w acc =
+  exp_loop shs (exec_line ext file_text n (S f)) s_eoe rif rfor rwh false rest
+    (mk_shs false ft (s_log w ++ pre)) (acc ++ map ext pre).
+Proof.
+  induction pre as [|l r IH]; intros Hok Hx rest w acc He Hf.
+  - cbn [map app]. rewrite !app_nil_r. destruct w as [e fs lg]. cbn [s_eoe s_funcs s_log] in *. subst. reflexivity.
+  - cbn [forallb] in Hok, Hx. apply andb_prop in Hok as [Hl Hr]. apply andb_prop in Hx as [Hxl Hxr].
+    unfold ok_line in Hl. apply andb_prop in Hl as [Hl Hs].
+    unfold wf_line in Hl. apply andb_prop in Hl as [Hl H3]. apply andb_prop in Hl as [H1 H2].
+    apply negb_true_iff in H1, H2, H3.
+    assert (Hp : exec_pipe ext file_text n (S f) w l = (mk_shs (s_eoe w) (s_funcs w) (s_log w ++ [l]), ext l)).
+    { rewrite exec_pipe_S. unfold is_ext_line, classify in Hxl.
+      destruct (cmd_words l) as [|cmd args]; [discriminate Hxl|].
+      destruct (str_eqb cmd [115; 101; 116] && match args with [a] => str_eqb a [45; 101] | _ => false end); [discriminate Hxl|].
+      destruct (str_eqb cmd s_source); [discriminate Hxl|].
+      pose proof (tab_lookup ft rt Htab cmd) as Hlk. rewrite Hf.
+      destruct (get_func cmd ft) as [text|]; [|reflexivity].
+      destruct Hlk as [body [Hb _]]. rewrite Hb in Hxl. discriminate Hxl. }
+    cbn [map app exp_loop cmd_node t_txt t_rule]. rewrite H1, H2, H3, N.eqb_refl.
+    unfold exec_line at 1. rewrite (run_line_single shs _ w l Hs), Hp. cbn [fst snd s_eoe].
+    rewrite He, andb_false_r.
+    rewrite (IH Hr Hxr rest (mk_shs false (s_funcs w) (s_log w ++ [l])) (acc ++ [ext l]) eq_refl Hf).
+    cbn [s_log map]. rewrite <- !app_assoc. reflexivity.
+Qed.
+End Prefix.
+
+Theorem sete_calls_script_at : forall ext file_text n fuel path text defs text_new rt pre sete lines cmds w,
+  file_text path = Some text -> function_table text = (defs, text_new) ->
+  tab_ok (set_funcs defs (s_funcs w)) rt ->
+  flat_parsed text_new (pre ++ sete :: lines) ->
+  s_eoe w = false ->
+  forallb ok_line pre = true -> forallb (is_ext_line rt) pre = true ->
+  cmd_words sete = [[115; 101; 116]; [45; 101]] ->
+  forallb ok_line (sete :: lines) = true ->
+  unfold rt (S fuel) lines = Some cmds ->
+  run_script ext file_text n (S (S fuel)) w path =
+    (mk_shs false (set_funcs defs (s_funcs w)) (s_log w ++ pre ++ upto_fail ext cmds), fail_status ext cmds).
+Proof.
+  intros ext file_text n fuel path text defs text_new rt pre sete lines cmds w Hfile Hft Htab Hpar He Hpok Hpx Hse Hok Hu.
+  rewrite run_script_S, Hfile, Hft. cbv zeta.
+  change (run_line_of shs (exec_pipe ext file_text n (S fuel))) with (exec_line ext file_text n (S fuel)).
+  destruct Hpar as [p [r [pairs [rule [txt [tail [Hp [Hm Ht]]]]]]]].
+  unfold run_lines. rewrite Hp, Hm, run_pairs_one. rewrite map_app, <- app_assoc.
+  cbn [forallb] in Hok. apply andb_prop in Hok as [Hl Hr].
+  set (w0 := mk_shs (s_eoe w) (set_funcs defs (s_funcs w)) (s_log w)).
+  rewrite (prefix_ext ext file_text n (set_funcs defs (s_funcs w)) rt Htab _ _ _ fuel pre Hpok Hpx _ w0 [] He eq_refl).
+  cbn [map app].
+  set (w1 := mk_shs false (set_funcs defs (s_funcs w)) (s_log w0 ++ pre)).
+  assert (Hx : exec_pipe ext file_text n (S fuel) w1 sete = (mk_shs true (s_funcs w1) (s_log w1), 0%Z)).
+  { rewrite exec_pipe_S, Hse. reflexivity. }
+  (* the statuses of the prefix may fail: the flag was off; the step for set -e is done by hand *)
+  unfold ok_line in Hl. apply andb_prop in Hl as [Hl Hs].
+  unfold wf_line in Hl. apply andb_prop in Hl as [Hl H3]. apply andb_prop in Hl as [H1 H2].
+  apply negb_true_iff in H1, H2, H3.
+  cbn [exp_loop cmd_node t_txt t_rule]. rewrite H1, H2, H3, N.eqb_refl.
+  unfold exec_line at 1. rewrite (run_line_single shs _ w1 sete Hs), Hx. cbn [fst snd s_eoe].
+  assert (Hz : last_is_nonzero (map ext pre ++ [0%Z]) = false).
+  { clear. induction (map ext pre) as [|a l IH]; [reflexivity|]. cbn [app].
+    destruct l as [|b l]; [reflexivity|]. exact IH. }
+  rewrite Hz. cbn [andb].
+  destruct (main_all ext file_text n (set_funcs defs (s_funcs w)) rt Htab (S fuel) lines cmds Hr Hu
+              (run_exp_if shs (exec_line ext file_text n (S fuel)) no_words no_setvar s_eoe n (length text_new))
+              (run_exp_for shs (exec_line ext file_text n (S fuel)) no_words no_setvar s_eoe n (length text_new))
+              (run_exp_while shs (exec_line ext file_text n (S fuel)) no_words no_setvar s_eoe n (length text_new))
+              tail (mk_shs true (s_funcs w1) (s_log w1)) (map ext pre ++ [0%Z]) Ht eq_refl eq_refl Hz) as [sts [G1 G2]].
+  rewrite G1. cbn [s_funcs s_log]. unfold w1, w0. cbn [s_log s_funcs]. rewrite He, <- app_assoc. f_equal.
+  unfold script_status. rewrite (last_or_zero_app _ sts Hz). exact G2.
+Qed.
